@@ -1195,6 +1195,80 @@ func modeStopRace(args []string) {
 		emit(res)
 		go s.srv.Stop()
 	}
+	// Stop when closing one connection reports an error (a TLS peer that is gone, a wrapped connection): the error is Stop's to
+	// return, but every other connection - registered or still shaking hands - is closed all the same and Stop waits for them
+	for round := 0; round < rounds; round++ {
+		s, err := startSUT(p, "both", false, "")
+		if err != nil {
+			emit(map[string]any{"error": "start: " + err.Error()})
+			continue
+		}
+		s.srv.RegisterExexutor("FAILCLOSE", func(conn *redis.Conn, cmd string, args redis.Arguments) (*redis.Message, error) {
+			conn.Conn = &failCloseConn{Conn: conn.Conn}
+			return redis.NewOKMessage(), nil
+		})
+		res := map[string]any{"round": round, "scenario": "close-error", "problems": []string{}}
+		add := func(msg string) { res["problems"] = append(res["problems"].([]string), msg) }
+		var plain []net.Conn
+		for i := 0; i < 3; i++ {
+			c, err := net.DialTimeout("tcp", addr(s.plain), ioTimeout)
+			if err != nil {
+				add("a client cannot connect: " + err.Error())
+				continue
+			}
+			cmd := "PING"
+			if i == round%3 {
+				cmd = "FAILCLOSE"
+			}
+			if _, err := exchange(c, resp(cmd)); err != nil {
+				add(cmd + " was not answered: " + err.Error())
+			}
+			plain = append(plain, c)
+		}
+		rawB, err := net.DialTimeout("tcp", addr(s.secure), ioTimeout) // accepted, tracked, not registered: it says nothing
+		if err != nil {
+			add("B cannot connect: " + err.Error())
+		}
+		vc := p.valid.tlsCert()
+		if _, ok := tlsServed(p, s.secure, &vc, ""); !ok {
+			add("a TLS client is not served before Stop")
+		}
+		stopDone := make(chan error, 1)
+		go func() { stopDone <- s.srv.Stop() }()
+		select {
+		case <-stopDone:
+		case <-time.After(5 * time.Second):
+			add("Stop did not return within 5 s")
+		}
+		open := 0
+		for _, c := range append(plain, rawB) {
+			if c == nil {
+				continue
+			}
+			c.SetDeadline(time.Now().Add(time.Second))
+			if _, err := c.Read(make([]byte, 1)); err == nil || errors.Is(err, os.ErrDeadlineExceeded) {
+				open++
+			}
+			c.Close()
+		}
+		if open > 0 {
+			add(fmt.Sprintf("%d client connection(s) are still open after Stop returned (closing one connection had reported an error)", open))
+		}
+		settle(func() bool { return len(s.srv.Conns()) == 0 }, 2*time.Second)
+		if n := len(s.srv.Conns()); n != 0 {
+			add(fmt.Sprintf("the registry holds %d connections after Stop", n))
+		}
+		emit(res)
+		go s.srv.Stop()
+	}
+}
+
+// failCloseConn closes the socket and reports an error, as tls.Conn.Close does when the peer is gone
+type failCloseConn struct{ net.Conn }
+
+func (f *failCloseConn) Close() error {
+	f.Conn.Close()
+	return errors.New("close: the peer is gone")
 }
 
 // ---------------------------------------------------------------- C07: a witness under connection churn and CONFIG SET
@@ -1415,5 +1489,30 @@ func modeRaceStress(args []string) {
 	}
 	wg.Wait()
 	s.srv.Stop()
-	emit(map[string]any{"ops": atomic.LoadInt64(&ops), "restarts": restarts, "clients": clients, "seconds": secs})
+	// Stop against a connection that was accepted a moment ago and is the ONLY one: the bookkeeping of a starting connection
+	// goroutine (WaitGroup, live set, registry) meets Stop's waits with all counters at zero
+	fresh := 0
+	x := uint32(seed)*2654435761 + 12345
+	for i := 0; i < 150*secs/6+50; i++ {
+		if err := s.srv.Start(); err != nil {
+			break
+		}
+		var c net.Conn
+		var err error
+		if i%3 == 0 {
+			c, err = net.DialTimeout("tcp", addr(s.secure), time.Second)
+		} else {
+			c, err = net.DialTimeout("tcp", addr(s.plain), time.Second)
+		}
+		x ^= x << 13
+		x ^= x >> 17
+		x ^= x << 5
+		time.Sleep(time.Duration(x%200) * time.Microsecond)
+		s.srv.Stop()
+		if err == nil {
+			c.Close()
+			fresh++
+		}
+	}
+	emit(map[string]any{"ops": atomic.LoadInt64(&ops), "restarts": restarts, "clients": clients, "seconds": secs, "stop_after_fresh_accept": fresh})
 }
